@@ -12,7 +12,8 @@ Inductive tok :=
 | TAtom (n : nat)                (* field:value on a keyword field -> one Literal *)
 | TIn (ns : list nat)            (* field:in(v1,..,vk) *)
 | TText (ns : list nat)          (* text field with k words *)
-| TAnd | TOr | TNot | TLP | TRP.
+| TAnd | TOr | TNot | TLP | TRP
+| TPipe.                        (* `|` : ends the filter; what follows is the pipe section *)
 
 Inductive ast :=
 | Leaf (n : nat)
@@ -134,6 +135,8 @@ with ploop (fuel depth : nat) (acc : option ast) (cur : ast) (ts : list tok) {st
         end
     | [] => Ok (join_or acc cur, [])
     | TRP :: _ => if Nat.ltb 0 depth then Ok (join_or acc cur, ts) else Err
+    (* lex.IsKeyword("|") at any depth: same fold of the two accumulators as at end of input *)
+    | TPipe :: _ => Ok (join_or acc cur, ts)
     | _ => Err
     end
   end.
@@ -144,6 +147,9 @@ Definition fuel_for (ts : list tok) : nat := 2 * length ts + 3.
 Definition parse_raw (ts : list tok) : res ast :=
   match filter (fuel_for ts) 0 ts with
   | Ok (e, []) => Ok e
+  (* SeqQL: the filter ended at the first top-level `|`; the pipe section that follows is parsed
+     separately (parsePipes; Lexer.v: pipes) and does not touch the filter *)
+  | Ok (e, TPipe :: _) => Ok e
   | Ok (_, _ :: _) => Err
   | Err => Err
   | OutOfFuel => OutOfFuel
